@@ -285,6 +285,121 @@ func runFault(r *rand.Rand, dir string, thorough bool) {
 	}
 }
 
+// ------------------------------------------------------------------------------------------------ chain
+// the store chain the command line builds from -s / -c / "a|b" / --cache-repair (cmd/desync/store.go)
+func runChain(r *rand.Rand, dir string) {
+	secs := map[string][]byte{}
+	blob := mkBlob(r, secs, "a b c Z d")
+	full := mkdir(filepath.Join(dir, "full"))
+	idx := chunkInto(full, blob)
+	idxFile := filepath.Join(dir, "blob.caibx")
+	writeIndex(idx, idxFile)
+	// two partial stores: the chunks of the index split between them
+	partA, partB := mkdir(filepath.Join(dir, "partA")), mkdir(filepath.Join(dir, "partB"))
+	fst, _ := desync.NewLocalStore(full, desync.StoreOptions{})
+	ast, _ := desync.NewLocalStore(partA, desync.StoreOptions{})
+	bst, _ := desync.NewLocalStore(partB, desync.StoreOptions{})
+	for i, c := range idx.Chunks {
+		ch, err := fst.GetChunk(c.ID)
+		must(err)
+		if i%2 == 0 {
+			must(ast.StoreChunk(ch))
+		} else {
+			must(bst.StoreChunk(ch))
+		}
+	}
+	httpOf := func(d string, writable bool) (string, func()) {
+		// as `desync chunk-server` does by default: the server does not verify what it reads from its store, the client does
+		st, err := desync.NewLocalStore(d, desync.StoreOptions{SkipVerify: true})
+		must(err)
+		return serve(desync.NewHTTPHandler(st, writable, false, desync.Converters{desync.Compressor{}}, ""))
+	}
+	failing := func() (string, func()) {
+		return serve(http.HandlerFunc(func(w http.ResponseWriter, r *http.Request) { http.Error(w, "down", http.StatusInternalServerError) }))
+	}
+	damage := func(cacheDir string) desync.ChunkID { // make one cached chunk invalid: another chunk's object under its name
+		c0, c1 := idx.Chunks[0].ID, idx.Chunks[1].ID
+		p0 := filepath.Join(cacheDir, c0.String()[:4], c0.String()+".cacnk")
+		p1 := filepath.Join(full, c1.String()[:4], c1.String()+".cacnk")
+		b, err := os.ReadFile(p1)
+		must(err)
+		os.MkdirAll(filepath.Dir(p0), 0755)
+		must(os.WriteFile(p0, b, 0644))
+		return c0
+	}
+	validIn := func(cacheDir string, id desync.ChunkID) bool {
+		st, err := desync.NewLocalStore(cacheDir, desync.StoreOptions{})
+		if err != nil {
+			return false
+		}
+		_, err = st.GetChunk(id)
+		return err == nil
+	}
+	emit := func(name string, valid bool, args []string, extraComplete func() bool) {
+		out := filepath.Join(dir, "out")
+		os.Remove(out)
+		res := run(append(append([]string{"--error-retry", "0", "extract", "-n", "2"}, args...), idxFile, out)...)
+		got, _ := os.ReadFile(out)
+		complete := bytes.Equal(got, blob)
+		if res.exit == 0 && extraComplete != nil {
+			complete = complete && extraComplete()
+		}
+		w.Emit(J{"ev": "cli", "fam": "chain", "cmd": "extract " + name, "k": 0, "exit": res.exit, "hung": res.hung, "complete": complete, "valid_inputs": valid, "out": res.last})
+	}
+	// router over two partial stores, local and over HTTP, in both orders
+	emit("router local", true, []string{"-s", partA, "-s", partB}, nil)
+	emit("router local reversed", true, []string{"-s", partB, "-s", partA}, nil)
+	ua, sa := httpOf(partA, false)
+	ub, sb := httpOf(partB, false)
+	emit("router http", true, []string{"-s", ua, "-s", ub}, nil)
+	emit("router mixed", true, []string{"-s", partB, "-s", ua}, nil)
+	emit("router with a chunk in neither", false, []string{"-s", ua}, nil)
+	// failover groups: the first member is down
+	uf, sf := failing()
+	uFull, sFull := httpOf(full, false)
+	emit("failover down|up", true, []string{"-s", uf + "|" + uFull}, nil)
+	emit("failover up|down", true, []string{"-s", uFull + "|" + uf}, nil)
+	emit("failover down|down|local", true, []string{"-s", uf + "|" + uf + "|" + full}, nil)
+	emit("failover inside a router", true, []string{"-s", uf + "|" + ua, "-s", ub}, nil)
+	emit("failover all down", false, []string{"-s", uf + "|" + uf}, nil)
+	// cache: filled on the way, then sufficient on its own
+	cacheDir := mkdir(filepath.Join(dir, "cache"))
+	// (chunks of zeros are written without asking any store, they need not be in the cache)
+	var fetched desync.Index
+	for _, c := range idx.Chunks {
+		if len(bytes.Trim(blob[c.Start:c.Start+c.Size], "\x00")) > 0 {
+			fetched.Chunks = append(fetched.Chunks, c)
+		}
+	}
+	emit("cache fill", true, []string{"-s", uFull, "-c", cacheDir}, func() bool { return storeHasAll(cacheDir, fetched) })
+	empty := mkdir(filepath.Join(dir, "empty"))
+	emit("cache only", true, []string{"-s", empty, "-c", cacheDir}, nil)
+	// an invalid chunk in the cache: repaired from upstream by default, a failure (never wrong data) without repair
+	for _, viaHTTP := range []bool{false, true} {
+		for _, repair := range []bool{true, false} {
+			cd := mkdir(filepath.Join(dir, "cache2"))
+			cst, _ := desync.NewLocalStore(cd, desync.StoreOptions{})
+			for _, c := range idx.Chunks {
+				ch, _ := fst.GetChunk(c.ID)
+				cst.StoreChunk(ch)
+			}
+			bad := damage(cd)
+			loc, stop := cd, func() {}
+			if viaHTTP {
+				loc, stop = httpOf(cd, true)
+			}
+			name := fmt.Sprintf("cache with an invalid chunk (cache over http: %v, repair: %v)", viaHTTP, repair)
+			args := []string{"-s", uFull, "-c", loc, fmt.Sprintf("--cache-repair=%v", repair)}
+			emit(name, repair, args, func() bool { return !repair || validIn(cd, bad) })
+			stop()
+		}
+	}
+	sa()
+	sb()
+	sf()
+	sFull()
+}
+
 // local target stores whose writes fail (file size limit): a write error inside LocalStore has to reach the exit status
 func runLocalFault(r *rand.Rand, dir string) {
 	secs := map[string][]byte{}
@@ -616,6 +731,9 @@ func main() {
 	if has("fault") {
 		runFault(r, mkdir(filepath.Join(*dir, "fault")), *thorough)
 		runLocalFault(r, mkdir(filepath.Join(*dir, "localfault")))
+	}
+	if has("chain") {
+		runChain(r, mkdir(filepath.Join(*dir, "chain")))
 	}
 	if has("extract") {
 		runExtract(r, mkdir(filepath.Join(*dir, "extract")), 60*mult)
